@@ -221,6 +221,22 @@ CLAIMED = {
              "printed form equals the line. Files with lone-CR line ends or lines starting with white space are out of domain.",
         technique="Coq proof (scan = per-line classification before FASTA, peek prefix, shared-list flow incl. refutation of the rebinding variant) + exhaustive small-scope differential correspondence",
         design="4 (C14)"),
+    "C13": dict(
+        text="Coq theorems (Properties/C13.v, 8 statements, closed under the global context) about the model of "
+             "_FeatureIterator.peek and _BaseIterator.__iter__: peek(n) returns the first n+1 items and leaves the contents "
+             "unchanged for every n (0 and beyond the length included), for lists and one-shot iterators alike, also when peeked "
+             "twice (DataIterator handed to create_db); list and one-shot sources are indistinguishable afterwards; for ANY "
+             "(stateful) transform the final state is the fold over all items in order - exactly one call each - and the output "
+             "is exactly the non-false results in order; inspect()'s count is min(limit, n). The equivalence of the seven input "
+             "forms themselves (path, gzip, string, list, generators, iter/map/chain objects, DataIterator, FeatureDB), of "
+             "DataIterator iteration and create_db, and Python truthiness of transform results is decided by the correspondence: "
+             "11 forms x checklines 0..n+2 x 6 transforms with call counters (~640 cases, each running all forms), all (n, "
+             "length) <= 8 for peek, inspect with limits.",
+        note="Trusted: Coq kernel + vm_compute; Model/Iter.v hand-written, tied by the correspondence. Which Python objects "
+             "count as one-shot (hasattr __next__) is runtime behaviour the model abstracts as SList/SIter: the correspondence "
+             "covers generator expressions/functions, iter(), map(), itertools.chain. URL input (_UrlIterator) is not modelled.",
+        technique="Coq proof (peek losslessness, transform-once by induction) + differential correspondence over input forms",
+        design="4 (C13)"),
 }
 
 PENDING_REASON = "machinery for this property is not built yet in this revision (planned, see DESIGN.md section 4/9); not claimed until its check exists"
